@@ -249,7 +249,7 @@ def run(ctx):
     grid = gen_grid()
     ctx.extra["grid_conditions"] = len(grid)
     ctx.exhaustive = False
-    rnd = gen_random(ctx.rng, ctx.pick(1500, 30000))
+    rnd = gen_random(ctx.rng, ctx.pick(1500, 120000))
     allc = grid + rnd
     # where the condition is used: transition need / entry condition, in an ordinary framer / in a clone of a moot framer
     modes = ["go", "go", "let", "clone-go", "clone-let"]
@@ -260,7 +260,7 @@ def run(ctx):
     B = 50
     batches = [allc[i:i + B] for i in range(0, len(allc), B)]
     n = 16
-    ctx.shard([{"batches": batches[i::n]} for i in range(n)], timeout=ctx.pick(200, 900))
+    ctx.shard([{"batches": batches[i::n]} for i in range(n)], timeout=ctx.pick(200, 1500))
     for op in OPS:
         ctx.floor("op_" + op, 100)
     ctx.floor("negated", 200)
